@@ -202,23 +202,60 @@ func VerifSysmonSenderKey(n *VerifOutsideNode, r *VerifSysmonIDs, data []byte, r
 }
 
 type VerifSysmonPending struct {
+	ID     uint64 // monitor id of the pending hostinfo
 	Vpn    netip.Addr
 	Local  uint32
 	Stage0 []byte
+	Stored [][]byte // the packets queued on the handshake (HandshakeHostInfo.packetStore), in order
 }
 
-// VerifSysmonPendingOf lists the pending handshakes with the first message each of them (re)transmits.
-func VerifSysmonPendingOf(n *VerifOutsideNode) []VerifSysmonPending {
+// VerifSysmonPendingOf lists the pending handshakes with the first message each of them (re)transmits and the packets
+// queued on them.
+func VerifSysmonPendingOf(n *VerifOutsideNode, r *VerifSysmonIDs) []VerifSysmonPending {
 	hsm := n.f.handshakeManager
 	hsm.RLock()
-	defer hsm.RUnlock()
-	var out []VerifSysmonPending
+	hhs := make(map[netip.Addr]*HandshakeHostInfo, len(hsm.vpnIps))
 	for a, hh := range hsm.vpnIps {
-		out = append(out, VerifSysmonPending{Vpn: a, Local: hh.hostinfo.localIndexId,
-			Stage0: append([]byte(nil), hh.hostinfo.HandshakePacket[handshakePacketStage0]...)})
+		hhs[a] = hh
+	}
+	hsm.RUnlock()
+	var out []VerifSysmonPending
+	for a, hh := range hhs {
+		hh.Lock()
+		p := VerifSysmonPending{Vpn: a, Local: hh.hostinfo.localIndexId,
+			Stage0: append([]byte(nil), hh.hostinfo.HandshakePacket[handshakePacketStage0]...)}
+		for _, cp := range hh.packetStore {
+			p.Stored = append(p.Stored, append([]byte(nil), cp.packet...))
+		}
+		hh.Unlock()
+		out = append(out, p)
 	}
 	sort.Slice(out, func(i, j int) bool { return out[i].Vpn.Less(out[j].Vpn) })
+	for i := range out {
+		out[i].ID = r.id(hhs[out[i].Vpn].hostinfo)
+	}
 	return out
+}
+
+// VerifSysmonSenderPlain opens a datagram of type Message with the SEND key of the tunnel of this node that sealed it (see
+// VerifSysmonSenderKey): what the node encrypted, independent of whether the receiver still holds the tunnel. Read-only.
+func VerifSysmonSenderPlain(n *VerifOutsideNode, r *VerifSysmonIDs, data []byte) (plain []byte, id uint64, ok bool) {
+	var h header.H
+	if err := h.Parse(data); err != nil || len(data) < header.Len+16 {
+		return nil, 0, false
+	}
+	nb := make([]byte, 12)
+	for i, hi := range r.all {
+		cs := hi.ConnectionState
+		if cs == nil || cs.eKey == nil || hi.remoteIndexId != h.RemoteIndex {
+			continue
+		}
+		buf := append([]byte(nil), data...)
+		if out, err := cs.eKey.DecryptDanger(nil, buf[:header.Len], buf[header.Len:], h.MessageCounter, nb); err == nil {
+			return out, uint64(i + 1), true
+		}
+	}
+	return nil, 0, false
 }
 
 // VerifSysmonCMTick is one iteration of connectionManager.Start's ticker branch at the virtual time now.
